@@ -5,6 +5,7 @@
     statement renders the property, and how the model is tied to /repo, is in DESIGN.md. *)
 From CB Require Import ProofLib Spec MonitorSound Results.
 From CB Require Import Inv_combine Inv_share.
+From CB Require Import Chain Programs.
 
 Theorem C17_map (f : val -> val) p (c : cfg (map_op f)) :
   std p -> reach p g_std c -> no_panic (trace c).
@@ -75,3 +76,16 @@ Theorem C17_combine (n : nat) p (c : cfg (combine_op n)) :
   1 <= n -> std p -> reach p g_std c -> dead c = false /\ ~ In VPanic (viols (ms c)).
 Proof. exact (@combine_c17 n p c). Qed.
 Print Assumptions C17_combine.
+
+(** ** programs: every component of every linear pipeline
+    [pipe!(from_iter(it), stages.. [, for_each(f)])] with stages from map/filter/scan/take/skip, of any
+    length, in every reachable state of the wired components (composition theorem, Chain.v/Programs.v) *)
+Theorem C17_pipeline it stages b N :
+  Forall ustage_ok stages -> net_reach (pipe_net it stages b) N ->
+  forall i n, nth_error (nodes N) i = Some n -> no_panic (ntrace n) /\ dead (ncfg n) = false.
+Proof.
+  exact (fun Hok Hr i n Hn =>
+           conj (pk_c17 (proj1 (@pipeline_protocol it stages b N Hok Hr i n Hn)))
+                (proj2 (@pipeline_protocol it stages b N Hok Hr i n Hn))).
+Qed.
+Print Assumptions C17_pipeline.
